@@ -1,0 +1,10 @@
+//go:build verif
+
+package iostream
+
+// Machine-checked contracts for the IO streams (comment-only; compiled only with -tags verif).
+
+// Null: both writers are io.Discard (the stream --json and --quiet install)
+//@ func Null
+//@ props C20
+//@ ensures [C20,null-stream-discards] isDiscard(result.Stdout) && isDiscard(result.Stderr)
